@@ -8,10 +8,12 @@ import (
 	"verif/ref/refacct"
 	"verif/ref/refchain"
 
+	"github.com/btcsuite/btcd/address/v2"
 	"github.com/btcsuite/btcd/blockchain"
 	"github.com/btcsuite/btcd/btcutil/v2"
 	"github.com/btcsuite/btcd/chainhash/v2"
 	"github.com/btcsuite/btcd/mempool"
+	"github.com/btcsuite/btcd/txscript/v2"
 	"github.com/btcsuite/btcd/wire/v2"
 )
 
@@ -49,6 +51,8 @@ type TxSpec struct {
 	Sequence uint32 // explicit sequence (overrides Signal)
 	Version  int32
 	Pad      int // extra OP_RETURN payload bytes
+	// ExtraOut are appended (before signing) as they are, e.g. bare scripts carrying signature operations
+	ExtraOut []*wire.TxOut
 }
 
 // Build assembles and signs the transaction.
@@ -85,6 +89,9 @@ func (p *PS) Build(s TxSpec) *wire.MsgTx {
 		rest -= v
 		kind := p.G.RandomKind(p.R)
 		tx.AddTxOut(&wire.TxOut{Value: v, PkScript: p.G.Script(kind, p.R.Intn(4), p.R)})
+	}
+	for _, o := range s.ExtraOut {
+		tx.AddTxOut(o)
 	}
 	if s.Pad > 0 {
 		d := p.R.Bytes(s.Pad)
@@ -280,7 +287,17 @@ func (p *PS) MineTemplate(expectSuccess bool) {
 	step := int64(300 + p.R.Intn(600))
 	p.F.Clock.Set(p.F.Clock.Now() + step)
 	p.op("template(pool=%d)", len(v.Descs))
-	tmpl, err := p.F.Gen.NewBlockTemplate(nil)
+	var payTo address.Address
+	if p.PayScript != nil {
+		_, addrs, _, aerr := txscript.ExtractPkScriptAddrs(p.PayScript, p.G.P)
+		if aerr != nil || len(addrs) != 1 {
+			p.K.Failf("harness:pay-address", "cannot derive an address from %x: %v", p.PayScript, aerr)
+			return
+		}
+		payTo = addrs[0]
+		p.K.Count("template.pay_address", 1)
+	}
+	tmpl, err := p.F.Gen.NewBlockTemplate(payTo)
 	p.K.Count("op.template", 1)
 	if err != nil {
 		if expectSuccess && p.MinableOK {
@@ -385,6 +402,10 @@ func (p *PS) MineTemplate(expectSuccess bool) {
 	// limits: consensus and policy
 	weight += 80*4 + int64(wire.VarIntSerializeSize(uint64(len(blk.Transactions))))*4
 	pol := p.F.MinePolicy
+	p.K.Count(fmt.Sprintf("template.sigop_cost_decile.%d", totalSigops/8000), 1)
+	if totalSigops >= 79990 {
+		p.K.Count("template.sigops_at_limit", 1)
+	}
 	if weight > 4000000 || totalSigops > 80000 {
 		p.Fail("template:consensus-limits", "template weight %d sigops %d", weight, totalSigops)
 	}
